@@ -7,6 +7,7 @@ CONSTANTS Producers = {"p1", "p2"}
           Locks = TRUE
           RealTime = FALSE
           Disconnect = TRUE
+          FatalEvery = 0
           NMsgs = 2
           ScriptSet = {"quit", "reset", "dtor", "cycle", "dtorquit", "dtorspin", "cyclequit"}
           Script2Set = {"none"}
